@@ -221,7 +221,7 @@ class MixedIntegrator(Integrator):
                     #    simulate by one timestep
                     #
 
-                    t_target = t + self.max_step_size
+                    t_target = min(t + self.max_step_size, self.sim_time)   # do not simulate past the requested duration
 
                 else:
 
